@@ -284,6 +284,8 @@ def ensure_tables():
 
 def coq_make(targets=(), timeout=1800):
     """(Re)build the Coq development: full .vo build, never -vos. Returns (ok, output)."""
+    os.makedirs(os.path.join(VERIF, "ocaml", "extracted"), exist_ok=True)     # Extract.v writes there
+    os.makedirs(os.path.join(COQ, "gen"), exist_ok=True)
     with flock(os.path.join(BUILD, "coq.lock")):
         if not os.path.exists(os.path.join(COQ, "Makefile")) or \
            os.path.getmtime(os.path.join(COQ, "Makefile")) < os.path.getmtime(os.path.join(COQ, "_CoqProject")):
